@@ -2078,6 +2078,27 @@ struct CallbackParamInfo {
     return_modification: String,
 }
 
+/// Verification hooks (add-only, compiled only with `--cfg rust_diplomat_diplomat_verif`).
+#[cfg(rust_diplomat_diplomat_verif)]
+pub(crate) mod verif_hooks {
+    use super::formatter::KotlinFormatter;
+    use diplomat_core::hir;
+
+    /// `(table, value)` rows of the formatter's primitive tables for one primitive:
+    /// `fmt_primitive_as_ffi(p)` and `fmt_primitive_as_kt(p)`.
+    pub fn kotlin_prim_rows(
+        tcx: &hir::TypeContext,
+        docs: &hir::DocsUrlGenerator,
+        p: hir::PrimitiveType,
+    ) -> Vec<(&'static str, String)> {
+        let f = KotlinFormatter::new(tcx, None, docs);
+        vec![
+            ("kotlin_ffi", f.fmt_primitive_as_ffi(p).to_string()),
+            ("kotlin_kt", f.fmt_primitive_as_kt(p).to_string()),
+        ]
+    }
+}
+
 #[cfg(test)]
 mod test {
 
